@@ -1,12 +1,13 @@
 #!/usr/bin/env python3
 """tools/seedimport.py <Cxx> — import the two changes produced by a mutation sub-agent from /tmp/m/<Cxx>/out."""
 import json, os, shutil, sys
-pid = sys.argv[1]
-src = f"/tmp/m/{pid}/out"
+arg = sys.argv[1]          # "C05" or "C05-r2" (second round: names C05-r2a, C05-r2b)
+pid = arg.split("-")[0]
+src = f"/tmp/m/{arg}/out"
 for x in "ab":
     if not os.path.exists(f"{src}/{x}.diff"):
         continue
-    d = f"/verif/seeded/{pid}-{x}"
+    d = f"/verif/seeded/{arg}{x}" if "-" in arg else f"/verif/seeded/{pid}-{x}"
     os.makedirs(d, exist_ok=True)
     shutil.copy(f"{src}/{x}.diff", f"{d}/patch.diff")
     shutil.copy(f"{src}/{x}_demo_test.go", f"{d}/demo_test.go")
